@@ -8,6 +8,7 @@ CONSTANTS
   CfgPool = "basic"
   ListPool = "basic"
   AccNs = {"", "a", "b", "m", "n"}
+  LawDev = {}
   AccMembers <- AccMembersFwd
-INVARIANTS InvNamespaceOnly InvConfigOnlyDefault InvShowHideComplement InvBuiltin Emit
+INVARIANTS InvNamespaceOnly InvConfigOnlyDefault InvShowHideComplement InvFilterExact InvBuiltin Emit
 CHECK_DEADLOCK FALSE
